@@ -10,5 +10,11 @@ def main():
         if not ok:
             print(f"SANY failed for {m}:\n{out[-1500:]}")
             bad += 1
+    import pqwrite
+    try:
+        pqwrite.selftest()      # the independent Parquet writer's encoders against its format-text decoder
+    except AssertionError as e:
+        print(f"pqwrite selftest failed: {e}")
+        bad += 1
     print("setup ok" if not bad else f"setup: {bad} module(s) failed to parse")
     return 0 if not bad else 2
